@@ -12,6 +12,7 @@ HolderOps == {"GetPoint", "GetSecret", "GetSecretOrNone", "CheckFutureSecret", "
               "Activate", "Revoke", "SignHolder", "SignHolderRecovery", "SignHolderRedundant",
               "Restart"}
 CpOps == {"SignCp", "ValidateRevocation", "Restart"}
+\* SignMutualClose needs both sides: it is part of the "all" alphabet only
 Reqs == IF Side = "handler" THEN HandlerRequests(N, {"A", "B"}, TT) ELSE
         {r \in Requests(N, HC, CC, TT) :
            /\ (r.op = "ValidateHolder" /\ r.sig = "badhtlc" => r.c = "H")
